@@ -143,7 +143,13 @@ func (ch *channel) Send(ctx async.Context, data []byte) status.Status {
 			return st
 		}
 		// Send message
-		return s.sender.sendData(ctx, data)
+		st := s.sender.sendData(ctx, data)
+		if !st.OK() {
+			// The message was not queued, its bytes are not in flight, return them to the window.
+			// Otherwise a send cancelled while it waits for the write queue shrinks the window forever.
+			s.sendWindow.Add(int32(len(data)))
+		}
+		return st
 	}
 
 	// Open channel
@@ -154,7 +160,14 @@ func (ch *channel) Send(ctx async.Context, data []byte) status.Status {
 	s.sendWindow.Add(-size)
 
 	// Send open/data
-	return s.sender.sendOpen(ctx, data)
+	st := s.sender.sendOpen(ctx, data)
+	if !st.OK() {
+		// The open message was not queued, the peer does not know the channel,
+		// return the bytes to the window, and let the next send open the channel.
+		s.sendWindow.Add(size)
+		s.opened.Store(false)
+	}
+	return st
 }
 
 // SendAndClose sends a close message with a payload.
